@@ -122,8 +122,10 @@ class Recorder:
             n = self._per_mech.get(mechanism, 0)
             self._per_mech[mechanism] = n + 1
             if n < 8 and len(self.violations) < MAX_VIOLATIONS_KEPT:
+                fxm = sys.modules.get("vlib.fixture")
                 self.violations.append({"mechanism": mechanism, "message": short(message, 1500),
-                                        "payload": payload, "shard": self.shard})
+                                        "payload": payload, "shard": self.shard,
+                                        "fixture_variant": getattr(fxm, "LAST_VARIANT", None)})   # the configuration variant of the daemon under test
 
     def should_stop(self, max_violations=6, budget=None):
         """fail fast: enough witnesses collected, or the shard's time budget is used up (the latter is recorded as inconclusive)"""
@@ -338,6 +340,7 @@ def main_check(prop, tier, seed, replay_path=None, jobs=None):
         with open(path, "w") as f:
             json.dump({"property": prop, "tier": tier, "seed": seed, "mechanism": v["mechanism"],
                        "message": v["message"], "shard": jsonable(v.get("shard")),
+                       "fixture_variant": v.get("fixture_variant"),
                        "payload": payload_pack(v.get("payload"))}, f, indent=1)
         replay_files.append(path)
         lines.append("VIOLATION property=%s replay=%s" % (prop, path))
@@ -424,6 +427,9 @@ def shard_main(specpath, outpath):
     try:
         if "replay" in shard:
             rp = shard["replay"]
+            if rp.get("fixture_variant") is not None:
+                from vlib import fixture as _fx
+                _fx.FORCED_VARIANT = rp["fixture_variant"]
             mod.replay(payload_unpack(rp["payload"]), rec)
         else:
             mod.run_shard(shard, rec)
